@@ -87,6 +87,46 @@ def programs(tier):
     )
     yield ("loop-side-waiter", side, {"count": 0}, dict(horizon=H_))
 
+    # an emit-only producer (no data output) re-running in a cycle while its waiter holds an older, unconsumed signal
+    late = T.prog(
+        [
+            T.fn("wtr", ["x", "z"], ["wo"], wait_for=["logged"], behav="env"),
+            T.fn("na", ["y"], ["x"], behav="env"),
+            T.fn("nb", ["x"], ["y"], behav="env"),
+            T.fn("nc", ["y"], ["z"], behav="env"),
+            T.fn("log", ["x"], [], emit=["logged"]),
+        ]
+    )
+    yield ("loop-emit-only-producer-late-input", late, {"x": 0}, dict(horizon=H_))
+    late2 = T.prog(
+        [
+            T.fn("wtr", ["x", "z"], ["wo"], wait_for=["logged"], behav="env"),
+            T.fn("step", ["x"], ["x"], behav="env"),
+            T.route("gt", ["x"], ["step", "END"], emit=["logged"]),
+            T.fn("nc", ["x"], ["y"], behav="env"),
+            T.fn("nd", ["y"], ["z"], behav="env"),
+        ]
+    )
+    yield ("loop-emitting-gate-late-input", late2, {"x": 0}, dict(horizon=H_))
+    # entry points: the waiter is reachable from the entry point only through the ordering signal
+    for ent in ("load", "flush", None):
+        ep = T.prog(
+            [
+                T.fn("prepare", ["raw"], ["source"]),
+                T.fn("load", ["source"], ["batch"]),
+                T.fn("flush", ["batch"], ["stored"], emit=["flushed"], behav="env"),
+                T.route("verify", ["e0"], ["flush", "END"], wait_for=["flushed"]),
+                T.fn("rep", ["e0"], ["rp"], wait_for=["flushed"]),
+            ]
+        )
+        ins = {"e0": ["prov", "e0"]}
+        if ent:
+            ep["entry"] = [ent]
+            ins[{"load": "source", "flush": "batch"}[ent]] = ["prov", "in"]
+        else:
+            ins["raw"] = ["prov", "raw"]
+        yield (f"entrypoint-{ent}-waiters-behind-ordering-edge", ep, ins, dict(horizon=H_))
+
 
 def systematic(tier):
     """step(c)->c emit s (cycle body), once(e0)->q emit t (runs once), gate(c)->step|END [optionally waiting s],
